@@ -56,6 +56,9 @@ func init() {
 	register(&core.Rule{ID: "G2", Min: 8,
 		Doc: "Type guard of the emitted decoder programs: in every emitted template, the instruction that follows `is_null` (the start of a value; lspace ignored) is a type guard or a delegation - check_char_0 + dismatch_err, the checkIfSkip helper, check_char '[' / '\"' (byte slices), a strict match_char, the error-raising dismatch_err/unsupported, the dynamic dispatchers any/dyn/recurse, a primitive/unmarshaler opcode passed in by the caller, checkMarshaler, or a call that compiles the value (compileOps/compileOne/...) - never an instruction that consumes or skips the value unconditionally: otherwise a value of the wrong JSON type is accepted silently where encoding/json reports an UnmarshalTypeError.",
 		Run: func(c *core.Ctx) { runIRT(c, "G2") }})
+	register(&core.Rule{ID: "G4", Min: 1,
+		Doc: "Short JSON arrays zero the rest of a fixed-size Go array: in every emitted template of jitdec.compileArray each `check_char ']'` branch (the array ended after 0..N elements) is pinned to the array_clear / array_clear_p instruction, which zeroes the elements that were not assigned, as encoding/json does; a close branch that lands past the clear keeps stale elements of a reused destination.",
+		Run: func(c *core.Ctx) { runIRT(c, "G4") }})
 	register(&core.Rule{ID: "G3", Min: 1,
 		Doc: "Separator discipline of the emitted encoder programs (struct bodies): in the per-field fragment of encoder.compileStructBody every `byte ','` is either guarded by the run-time first-member test (cond_testc immediately before it), or it is emitted under a compile-time flag B (`if B`), and then every Go-level path that sets `B = true` emits code for its field that cannot be skipped at run time (no branch of the field's code jumps past its key). Otherwise a struct whose leading fields are skipped (nil embedded pointer, omitempty) is encoded as `{,\"name\":...}`.",
 		Run: func(c *core.Ctx) { runIRT(c, "G3") }})
@@ -789,6 +792,30 @@ func (s *irState) finish(endPos token.Pos) {
 	s.balance(endPos)
 	s.grammar()
 	s.typeGuard()
+	s.arrayClear()
+}
+
+// arrayClear (G4): every early close of a fixed-size array reaches the clear of the rest.
+func (s *irState) arrayClear() {
+	if s.d.name != "jitdec" || s.fname != "compileArray" {
+		return
+	}
+	for _, in := range s.instrs {
+		if in.op != "_OP_check_char" || in.arg != "]" {
+			continue
+		}
+		ok := in.target >= 0 && in.target < len(s.instrs) && strings.HasPrefix(s.instrs[in.target].op, "_OP_array_clear")
+		if !ok {
+			where := "an unresolved position"
+			if in.target >= 0 && in.target < len(s.instrs) {
+				where = "`" + strings.TrimPrefix(s.instrs[in.target].op, "_OP_") + "`"
+			} else if in.target == len(s.instrs) {
+				where = "the end of the template"
+			}
+			s.viol = append(s.viol, irViolation{"G4", "array-clear", in.pos,
+				"the `check_char ']'` branch emitted at " + s.p.Pos(in.pos) + " lands on " + where + " instead of array_clear: when the JSON array is shorter than the Go array the remaining elements keep their old values (encoding/json zeroes them)"})
+		}
+	}
 }
 
 // typeGuard (G2): a value starts with is_null; what follows must check the value's type
@@ -1240,6 +1267,9 @@ func runIRT(c *core.Ctx, rule string) {
 			if (rule == "G2" || rule == "G1") && d.name != "jitdec" {
 				continue
 			}
+			if rule == "G4" && (d.name != "jitdec" || name != "compileArray") {
+				continue
+			}
 			if rule == "G3" && (d.name != "encoder" || !strings.HasPrefix(name, "compileStructBody")) {
 				continue
 			}
@@ -1276,6 +1306,11 @@ func runIRT(c *core.Ctx, rule string) {
 					c.OK(fn+"/tag", info.fd.Pos(), "save preceded by tag on every path")
 				case "G1":
 					c.OK(fn+"/separators", info.fd.Pos(), "%d feasible paths: no ',' is followed by an accepted closer", an.paths[name])
+				case "G4":
+					if name != "compileArray" {
+						continue
+					}
+					c.OK(fn+"/array-clear", info.fd.Pos(), "%d feasible paths: every close branch lands on array_clear", an.paths[name])
 				case "G3":
 					if d.name != "encoder" || !strings.HasPrefix(name, "compileStructBody") {
 						continue
